@@ -50,8 +50,10 @@ type evariant struct {
 	Retry bool // client created with retries enabled: every attempt is answered the same way
 }
 
+// unfinished: the answer never completes (its body, or already its head): only a deadline ends the exchange.
 func (v evariant) unfinished() bool {
-	return v.Framing == "unfinished" || (v.Then != nil && v.Then.Framing == "unfinished")
+	u := func(f string) bool { return f == "unfinished" || f == "no-answer" || f == "head-unfinished" }
+	return u(v.Framing) || (v.Then != nil && u(v.Then.Framing))
 }
 
 func (v evariant) finalStatus() int {
@@ -76,6 +78,8 @@ func errVariants(thorough bool) []evariant {
 		{Name: "502-html-chunked", Class: "5xx,body-chunked", Status: 502, CT: "text/html", Body: "html", Framing: "chunked"},
 		{Name: "503-json-unfinished", Class: "5xx,body-unfinished", Status: 503, CT: "application/json", Body: "json", Framing: "unfinished"},
 		{Name: "503-sse-unfinished", Class: "5xx,sse-body-unfinished", Status: 503, CT: "text/event-stream", Body: "sse", Framing: "unfinished"},
+		{Name: "503-head-unfinished", Class: "5xx,head-unfinished", Status: 503, CT: "text/plain", Extra: []string{"Retry-After: 5"}, Body: "none", Framing: "head-unfinished"},
+		{Name: "no-answer", Class: "no-answer-at-all", Status: 0, Body: "none", Framing: "no-answer"},
 		{Name: "504-empty", Class: "5xx,no-body", Status: 504, Body: "none", Framing: "none"},
 		{Name: "202-empty", Class: "2xx-without-result", Status: 202, Body: "none", Framing: "none"},
 		{Name: "204", Class: "2xx-without-result", Status: 204, Body: "none", Framing: "none"},
@@ -627,7 +631,6 @@ func (e *errEnv) round(c eclass, k int) (delivered int, ok bool) {
 		}
 	}
 	rep.Count("http_error_answers_delivered", int64(delivered))
-	rep.Count("faults_delivered", int64(delivered))
 	return delivered, true
 }
 
@@ -890,7 +893,6 @@ func (e *errEnv) realBatch() {
 				}
 				d := e.px.StatusCount(sc.status) - before
 				rep.Count("http_error_answers_delivered", int64(d))
-				rep.Count("faults_delivered", int64(d))
 				return d, true
 			}
 			e.runClass(c, round, 1)
